@@ -346,6 +346,302 @@ structure Cfg where
   includePaths : List Bytes
 deriving Inhabited
 
+/-- block 1 of the event loop (preprocess.rs:272-290): entering / leaving a node on the skip list switches skipping on / off -/
+def skipStep (w : WState) (ev : Event) : WState :=
+  match ev with
+  | .enter x => if w.skipNodes.contains x then { w with skip := true } else w
+  | .leave x => if w.skipNodes.contains x then { w with skip := false } else w
+
+/-- block 2 of the event loop: `include must be alone on its line -/
+def lineStep (K : PpKinds) (inp : Input) (w1 : WState) (ev : Event) : Except PpError WState :=
+  match ev with
+  | .enter x =>
+    if x.baseKind == K.sdNotDirective || x.baseKind == K.compilerDirective then
+      match locOf x with
+      | some (_, _, line) => if w1.lastIncludeLine == some line then .error .includeLine else .ok w1
+      | none => .ok w1
+    else .ok w1
+  | .leave x =>
+    if x.baseKind == K.sdNotDirective then
+      match locOf x with
+      | some (o, l, line) =>
+        let text := trimEnd (bytesOf inp o l)
+        if !text.isEmpty then .ok { w1 with lastItemLine := some (line + text.count 10) } else .ok w1
+      | none => .ok w1
+    else if x.baseKind == K.compilerDirective then
+      match locOf x with
+      | some (o, l, line) => .ok { w1 with lastItemLine := some (line + (trimEnd (bytesOf inp o l)).count 10) }
+      | none => .ok w1
+    else .ok w1
+
+/-- `ret.push(locate.str(s), Some((path, Range::new(offset, offset + len))))` for the node's own `Locate` -/
+def pushLoc (inp : Input) (path : Bytes) (w' : WState) (x : Tree) : WState :=
+  match locOf x with
+  | some (o, l, _) => { w' with out := w'.out.push (bytesOf inp o l) (some (path, ⟨o, o + l⟩)) }
+  | none => w'
+
+section Arms
+set_option linter.unusedVariables false
+
+/-- one `Enter` arm of the event loop (see `enterStep`) -/
+def armNotDirective (C : Cfg)
+    (recInner : Bytes → Defines → Bool → Bool → Nat → Nat → Except PpError (POut × Defines))
+    (recUsage : Input → Bytes → Bytes → Tree → Defines → Bool → Nat → Nat → Except PpError (Option (Bytes × Option (Bytes × Range) × Defines)))
+    (inp : Input) (s path : Bytes) (ignoreInclude stripComments : Bool) (resolveDepth includeDepth : Nat) (w2 : WState) (x : Tree) :
+    Except PpError WState :=
+  let K := C.K
+  let bk := x.baseKind
+  .ok (pushLoc inp path w2 x)
+
+/-- one `Enter` arm of the event loop (see `enterStep`) -/
+def armStrLike (C : Cfg)
+    (recInner : Bytes → Defines → Bool → Bool → Nat → Nat → Except PpError (POut × Defines))
+    (recUsage : Input → Bytes → Bytes → Tree → Defines → Bool → Nat → Nat → Except PpError (Option (Bytes × Option (Bytes × Range) × Defines)))
+    (inp : Input) (s path : Bytes) (ignoreInclude stripComments : Bool) (resolveDepth includeDepth : Nat) (w2 : WState) (x : Tree) :
+    Except PpError WState :=
+  let K := C.K
+  let bk := x.baseKind
+  match x.kids.head? with
+  | some c => .ok (pushLoc inp path w2 c)
+  | none => .ok w2
+
+/-- one `Enter` arm of the event loop (see `enterStep`) -/
+def armKept (C : Cfg)
+    (recInner : Bytes → Defines → Bool → Bool → Nat → Nat → Except PpError (POut × Defines))
+    (recUsage : Input → Bytes → Bytes → Tree → Defines → Bool → Nat → Nat → Except PpError (Option (Bytes × Option (Bytes × Range) × Defines)))
+    (inp : Input) (s path : Bytes) (ignoreInclude stripComments : Bool) (resolveDepth includeDepth : Nat) (w2 : WState) (x : Tree) :
+    Except PpError WState :=
+  let K := C.K
+  let bk := x.baseKind
+  .ok { (pushLoc inp path w2 x) with skipWs := true }
+
+/-- one `Enter` arm of the event loop (see `enterStep`) -/
+def armUndef (C : Cfg)
+    (recInner : Bytes → Defines → Bool → Bool → Nat → Nat → Except PpError (POut × Defines))
+    (recUsage : Input → Bytes → Bytes → Tree → Defines → Bool → Nat → Nat → Except PpError (Option (Bytes × Option (Bytes × Range) × Defines)))
+    (inp : Input) (s path : Bytes) (ignoreInclude stripComments : Bool) (resolveDepth includeDepth : Nat) (w2 : WState) (x : Tree) :
+    Except PpError WState :=
+  let K := C.K
+  let bk := x.baseKind
+  let id := (match x.kids with | _ :: _ :: name :: _ => identOf K inp name | _ => none).getD []
+  .ok { (pushLoc inp path { w2 with defines := w2.defines.remove id } x) with skipWs := true }
+
+/-- one `Enter` arm of the event loop (see `enterStep`) -/
+def armUndefAll (C : Cfg)
+    (recInner : Bytes → Defines → Bool → Bool → Nat → Nat → Except PpError (POut × Defines))
+    (recUsage : Input → Bytes → Bytes → Tree → Defines → Bool → Nat → Nat → Except PpError (Option (Bytes × Option (Bytes × Range) × Defines)))
+    (inp : Input) (s path : Bytes) (ignoreInclude stripComments : Bool) (resolveDepth includeDepth : Nat) (w2 : WState) (x : Tree) :
+    Except PpError WState :=
+  let K := C.K
+  let bk := x.baseKind
+  .ok { (pushLoc inp path { w2 with defines := [] } x) with skipWs := true }
+
+/-- one `Enter` arm of the event loop (see `enterStep`) -/
+def armCond (C : Cfg)
+    (recInner : Bytes → Defines → Bool → Bool → Nat → Nat → Except PpError (POut × Defines))
+    (recUsage : Input → Bytes → Bytes → Tree → Defines → Bool → Nat → Nat → Except PpError (Option (Bytes × Option (Bytes × Range) × Defines)))
+    (inp : Input) (s path : Bytes) (ignoreInclude stripComments : Bool) (resolveDepth includeDepth : Nat) (w2 : WState) (x : Tree) :
+    Except PpError WState :=
+  let K := C.K
+  let bk := x.baseKind
+  match splitCond K x.kids with
+  | none => .ok w2
+  | some (kw, ifid, ifbody, elsifs, els) =>
+    let names := elsifs.map (fun e => (identOf K inp e.2.1).getD [])
+    let plan := condPlan (bk == K.ifdef) (fun n => (w2.defines.get? n).isSome) ((identOf K inp ifid).getD []) names els.isSome
+    .ok (skipPushAll w2 (condSkipNodes kw ifid ifbody elsifs els plan))
+
+/-- one `Enter` arm of the event loop (see `enterStep`) -/
+def armWhiteSpace (C : Cfg)
+    (recInner : Bytes → Defines → Bool → Bool → Nat → Nat → Except PpError (POut × Defines))
+    (recUsage : Input → Bytes → Bytes → Tree → Defines → Bool → Nat → Nat → Except PpError (Option (Bytes × Option (Bytes × Range) × Defines)))
+    (inp : Input) (s path : Bytes) (ignoreInclude stripComments : Bool) (resolveDepth includeDepth : Nat) (w2 : WState) (x : Tree) :
+    Except PpError WState :=
+  let K := C.K
+  let bk := x.baseKind
+  if !w2.skipWs then
+    if x.kind == K.wsSpace then
+      match locOf x with
+      | some (o, l, _) => .ok { w2 with out := w2.out.push (bytesOf inp o l) (some (path, ⟨o, o + l⟩)) }
+      | none => .ok w2
+    else .ok w2
+  else .ok w2
+
+/-- one `Enter` arm of the event loop (see `enterStep`) -/
+def armComment (C : Cfg)
+    (recInner : Bytes → Defines → Bool → Bool → Nat → Nat → Except PpError (POut × Defines))
+    (recUsage : Input → Bytes → Bytes → Tree → Defines → Bool → Nat → Nat → Except PpError (Option (Bytes × Option (Bytes × Range) × Defines)))
+    (inp : Input) (s path : Bytes) (ignoreInclude stripComments : Bool) (resolveDepth includeDepth : Nat) (w2 : WState) (x : Tree) :
+    Except PpError WState :=
+  let K := C.K
+  let bk := x.baseKind
+  match locOf x with
+  | some (o, l, _) => .ok { w2 with out := w2.out.push (commentEmit stripComments (bytesOf inp o l)) (some (path, ⟨o, o + l⟩)) }
+  | none => .ok w2
+
+/-- one `Enter` arm of the event loop (see `enterStep`) -/
+def armDefine (C : Cfg)
+    (recInner : Bytes → Defines → Bool → Bool → Nat → Nat → Except PpError (POut × Defines))
+    (recUsage : Input → Bytes → Bytes → Tree → Defines → Bool → Nat → Nat → Except PpError (Option (Bytes × Option (Bytes × Range) × Defines)))
+    (inp : Input) (s path : Bytes) (ignoreInclude stripComments : Bool) (resolveDepth includeDepth : Nat) (w2 : WState) (x : Tree) :
+    Except PpError WState :=
+  let K := C.K
+  let bk := x.baseKind
+  let wA := { (w2.skipPush x) with skip := true }
+  match x.kids with
+  | _ :: _ :: proto :: rest =>
+    let id := (match proto.kids.head? with | some name => identOf K inp name | none => none).getD []
+    let wB :=
+      if !isPredefined id then
+        let formals : List Tree :=
+          match proto.kids.find? (fun k => k.baseKind == K.listOfFormalArguments) with
+          | some lf => lf.kids.filter (fun k => k.baseKind == K.formalArgument)
+          | none => []
+        let args := formals.map (fun fa =>
+          let name := match fa.kids.head? with
+            | some si => (match si.kids.head? with | some (.leaf o l _) => bytesOf inp o l | _ => [])
+            | none => []
+          let dflt := match fa.kids.find? (fun k => k.baseKind == K.defaultText) with
+            | some d => some (strOf inp d)
+            | none => none
+          (name, dflt))
+        let dtext : Option DefineText :=
+          match rest.find? (fun k => k.baseKind == K.macroText) with
+          | some mt =>
+            match locOf mt with
+            | some (o, l, _) => some { text := bytesOf inp o l, origin := some (path, ⟨o, o + l⟩) }
+            | none => none
+          | none => none
+        { wA with defines := wA.defines.insert id (some { ident := id, args := args, text := dtext }) }
+      else wA
+    .ok (pushLoc inp path wB x)
+  | _ => .ok (pushLoc inp path wA x)
+
+/-- one `Enter` arm of the event loop (see `enterStep`) -/
+def armInclude (C : Cfg)
+    (recInner : Bytes → Defines → Bool → Bool → Nat → Nat → Except PpError (POut × Defines))
+    (recUsage : Input → Bytes → Bytes → Tree → Defines → Bool → Nat → Nat → Except PpError (Option (Bytes × Option (Bytes × Range) × Defines)))
+    (inp : Input) (s path : Bytes) (ignoreInclude stripComments : Bool) (resolveDepth includeDepth : Nat) (w2 : WState) (x : Tree) :
+    Except PpError WState :=
+  let K := C.K
+  let bk := x.baseKind
+  let wA := { (w2.skipPush x) with skip := true }
+  match locOf x with
+  | none => .ok wA
+  | some (_, _, line) =>
+    let wB := { wA with lastIncludeLine := some line }
+    if wB.lastItemLine == some line then .error .includeLine
+    else
+      match x.kids.head? with
+      | none => .ok wB
+      | some inner =>
+        let kwL : List Tree := ((inner.kids.drop 1).head?).toList
+        let lit := (inner.kids.drop 2).head?
+        -- (path text, further nodes put on the skip list)
+        let pathR : Except PpError (Bytes × List Tree) :=
+          if x.kind == K.incDoubleQuote then
+            match lit with
+            | some l => (match firstLeaf l with
+                | some (o, n, _) => .ok (trimMatches 34 (bytesOf inp o n), [])
+                | none => .ok ([], []))
+            | none => .ok ([], [])
+          else if x.kind == K.incAngleBracket then
+            match lit with
+            | some l => (match firstLeaf l with
+                | some (o, n, _) => .ok (trimEndMatches 62 (trimStartMatches 60 (bytesOf inp o n)), [])
+                | none => .ok ([], []))
+            | none => .ok ([], [])
+          else
+            match lit with
+            | some u =>
+              (match recUsage inp s path u wB.defines stripComments (resolveDepth + 1) includeDepth with
+               | .error e => .error e
+               | .ok (some (p, _, _)) => .ok (trimMatches 34 (trim p), [u])
+               | .ok none => .ok ([], [u]))
+            | none => .ok ([], [])
+        match pathR with
+        | .error e => .error e
+        | .ok (p0, extra) =>
+          let wE := skipPushAll wB (kwL ++ extra)
+          let p1 := resolveIncludePath C.fs C.includePaths p0
+          match recInner p1 wE.defines stripComments false resolveDepth (includeDepth + 1) with
+          | .error e => .error (.include e)
+          | .ok (inc, nd) => .ok { wE with defines := nd, out := wE.out.merge inc }
+
+/-- one `Enter` arm of the event loop (see `enterStep`) -/
+def armUsage (C : Cfg)
+    (recInner : Bytes → Defines → Bool → Bool → Nat → Nat → Except PpError (POut × Defines))
+    (recUsage : Input → Bytes → Bytes → Tree → Defines → Bool → Nat → Nat → Except PpError (Option (Bytes × Option (Bytes × Range) × Defines)))
+    (inp : Input) (s path : Bytes) (ignoreInclude stripComments : Bool) (resolveDepth includeDepth : Nat) (w2 : WState) (x : Tree) :
+    Except PpError WState :=
+  let K := C.K
+  let bk := x.baseKind
+  let wA := { (w2.skipPush x) with skip := true }
+  match recUsage inp s path x wA.defines stripComments (resolveDepth + 1) includeDepth with
+  | .error e => .error e
+  | .ok r =>
+    let wB := match r with
+      | some (text, origin, nd) => { wA with out := wA.out.push text origin, defines := nd }
+      | none => wA
+    -- trailing whitespace attached to the closing paren (or to the identifier)
+    let hasArgs := x.kids.any (fun k => k.baseKind == K.listOfActualArguments)
+    let src : Option Tree := if hasArgs then x.kids.getLast? else (x.kids.drop 1).head?
+    let wss : List Tree := match src with
+      | some t => (pre t).filter (fun k => k.baseKind == K.whiteSpace)
+      | none => []
+    .ok (wss.foldl (pushLoc inp path) wB)
+
+/-- one `Enter` arm of the event loop (see `enterStep`) -/
+def armPosition (C : Cfg)
+    (recInner : Bytes → Defines → Bool → Bool → Nat → Nat → Except PpError (POut × Defines))
+    (recUsage : Input → Bytes → Bytes → Tree → Defines → Bool → Nat → Nat → Except PpError (Option (Bytes × Option (Bytes × Range) × Defines)))
+    (inp : Input) (s path : Bytes) (ignoreInclude stripComments : Bool) (resolveDepth includeDepth : Nat) (w2 : WState) (x : Tree) :
+    Except PpError WState :=
+  let K := C.K
+  let bk := x.baseKind
+  let wA := { (w2.skipPush x) with skip := true }
+  match (x.kids.drop 1).head? with
+  | some kw =>
+    match locOf kw with
+    | some (o, l, line) =>
+      let t := bytesOf inp o l
+      if startsWith t bFILE then
+        .ok { wA with out := wA.out.push (replaceAll (t.length + 1) t bFILE ([34] ++ path ++ [34])) none }
+      else if startsWith t bLINE then
+        .ok { wA with out := wA.out.push (replaceAll (t.length + 1) t bLINE (natToDec line)) none }
+      else .ok wA
+    | none => .ok wA
+  | none => .ok wA
+
+end Arms
+
+/-- the `Enter` arms of the event loop (preprocess.rs:292-760), dispatch on the node kind. The two recursive callees are parameters:
+    `recInner` = `preprocess_inner` (an `include), `recUsage` = `resolve_text_macro_usage`; the result is the walker state after the event. -/
+def enterStep (C : Cfg)
+    (recInner : Bytes → Defines → Bool → Bool → Nat → Nat → Except PpError (POut × Defines))
+    (recUsage : Input → Bytes → Bytes → Tree → Defines → Bool → Nat → Nat → Except PpError (Option (Bytes × Option (Bytes × Range) × Defines)))
+    (inp : Input) (s path : Bytes) (ignoreInclude stripComments : Bool) (resolveDepth includeDepth : Nat) (w2 : WState) (x : Tree) :
+    Except PpError WState :=
+  let K := C.K
+  let bk := x.baseKind
+  if bk == K.sdNotDirective then armNotDirective C recInner recUsage inp s path ignoreInclude stripComments resolveDepth includeDepth w2 x
+  else if x.kind == K.sdStringLiteral || x.kind == K.sdEscapedIdentifier then armStrLike C recInner recUsage inp s path ignoreInclude stripComments resolveDepth includeDepth w2 x
+  else if K.kept.contains bk then armKept C recInner recUsage inp s path ignoreInclude stripComments resolveDepth includeDepth w2 x
+  else if bk == K.undefine then armUndef C recInner recUsage inp s path ignoreInclude stripComments resolveDepth includeDepth w2 x
+  else if bk == K.undefineall then armUndefAll C recInner recUsage inp s path ignoreInclude stripComments resolveDepth includeDepth w2 x
+  else if bk == K.ifdef || bk == K.ifndef then armCond C recInner recUsage inp s path ignoreInclude stripComments resolveDepth includeDepth w2 x
+  else if bk == K.whiteSpace then armWhiteSpace C recInner recUsage inp s path ignoreInclude stripComments resolveDepth includeDepth w2 x
+  else if bk == K.comment then armComment C recInner recUsage inp s path ignoreInclude stripComments resolveDepth includeDepth w2 x
+  else if bk == K.textMacroDefinition then armDefine C recInner recUsage inp s path ignoreInclude stripComments resolveDepth includeDepth w2 x
+  else if bk == K.includeDirective && !ignoreInclude then armInclude C recInner recUsage inp s path ignoreInclude stripComments resolveDepth includeDepth w2 x
+  else if bk == K.textMacroUsage then armUsage C recInner recUsage inp s path ignoreInclude stripComments resolveDepth includeDepth w2 x
+  else if bk == K.position then armPosition C recInner recUsage inp s path ignoreInclude stripComments resolveDepth includeDepth w2 x
+  else .ok w2
+
+/-- the `Leave` arms: leaving a kept directive / `undef / `undefineall re-enables whitespace emission -/
+def leaveStep (K : PpKinds) (w2 : WState) (x : Tree) : WState :=
+  if K.kept.contains x.baseKind || x.baseKind == K.undefine || x.baseKind == K.undefineall then { w2 with skipWs := false } else w2
+
 mutual
 /-- `preprocess_str` -/
 def preprocessStr (C : Cfg) : Nat → Bytes → Bytes → Defines → Bool → Bool → Nat → Nat →
@@ -374,181 +670,20 @@ def walk (C : Cfg) : Nat → Input → Bytes → Bytes → Bool → Bool → Nat
   | fuel + 1, inp, s, path, ignoreInclude, stripComments, resolveDepth, includeDepth, ev :: evs, w =>
     let K := C.K
     -- block 1: skip bookkeeping
-    let w1 : WState :=
-      match ev with
-      | .enter x => if w.skipNodes.contains x then { w with skip := true } else w
-      | .leave x => if w.skipNodes.contains x then { w with skip := false } else w
+    let w1 : WState := skipStep w ev
     if w1.skip then walk C fuel inp s path ignoreInclude stripComments resolveDepth includeDepth evs w1
     else
       -- block 2: include-line bookkeeping
-      let b2 : Except PpError WState :=
-        match ev with
-        | .enter x =>
-          if x.baseKind == K.sdNotDirective || x.baseKind == K.compilerDirective then
-            match locOf x with
-            | some (_, _, line) => if w1.lastIncludeLine == some line then .error .includeLine else .ok w1
-            | none => .ok w1
-          else .ok w1
-        | .leave x =>
-          if x.baseKind == K.sdNotDirective then
-            match locOf x with
-            | some (o, l, line) =>
-              let text := trimEnd (bytesOf inp o l)
-              if !text.isEmpty then .ok { w1 with lastItemLine := some (line + text.count 10) } else .ok w1
-            | none => .ok w1
-          else if x.baseKind == K.compilerDirective then
-            match locOf x with
-            | some (o, l, line) => .ok { w1 with lastItemLine := some (line + (trimEnd (bytesOf inp o l)).count 10) }
-            | none => .ok w1
-          else .ok w1
+      let b2 : Except PpError WState := lineStep K inp w1 ev
       match b2 with
       | .error e => .error e
       | .ok w2 =>
-        let cont (w' : WState) := walk C fuel inp s path ignoreInclude stripComments resolveDepth includeDepth evs w'
-        let pushLoc (w' : WState) (x : Tree) : WState :=
-          match locOf x with
-          | some (o, l, _) => { w' with out := w'.out.push (bytesOf inp o l) (some (path, ⟨o, o + l⟩)) }
-          | none => w'
         match ev with
-        | .leave x =>
-          if K.kept.contains x.baseKind || x.baseKind == K.undefine || x.baseKind == K.undefineall then
-            cont { w2 with skipWs := false }
-          else cont w2
+        | .leave x => walk C fuel inp s path ignoreInclude stripComments resolveDepth includeDepth evs (leaveStep K w2 x)
         | .enter x =>
-          let bk := x.baseKind
-          if bk == K.sdNotDirective then cont (pushLoc w2 x)
-          else if x.kind == K.sdStringLiteral || x.kind == K.sdEscapedIdentifier then
-            match x.kids.head? with
-            | some c => cont (pushLoc w2 c)
-            | none => cont w2
-          else if K.kept.contains bk then cont { (pushLoc w2 x) with skipWs := true }
-          else if bk == K.undefine then
-            let id := (match x.kids with | _ :: _ :: name :: _ => identOf K inp name | _ => none).getD []
-            cont { (pushLoc { w2 with defines := w2.defines.remove id } x) with skipWs := true }
-          else if bk == K.undefineall then
-            cont { (pushLoc { w2 with defines := [] } x) with skipWs := true }
-          else if bk == K.ifdef || bk == K.ifndef then
-            match splitCond K x.kids with
-            | none => cont w2
-            | some (kw, ifid, ifbody, elsifs, els) =>
-              let names := elsifs.map (fun e => (identOf K inp e.2.1).getD [])
-              let plan := condPlan (bk == K.ifdef) (fun n => (w2.defines.get? n).isSome) ((identOf K inp ifid).getD []) names els.isSome
-              cont (skipPushAll w2 (condSkipNodes kw ifid ifbody elsifs els plan))
-          else if bk == K.whiteSpace then
-            if !w2.skipWs then
-              if x.kind == K.wsSpace then
-                match locOf x with
-                | some (o, l, _) => cont { w2 with out := w2.out.push (bytesOf inp o l) (some (path, ⟨o, o + l⟩)) }
-                | none => cont w2
-              else cont w2
-            else cont w2
-          else if bk == K.comment then
-            match locOf x with
-            | some (o, l, _) => cont { w2 with out := w2.out.push (commentEmit stripComments (bytesOf inp o l)) (some (path, ⟨o, o + l⟩)) }
-            | none => cont w2
-          else if bk == K.textMacroDefinition then
-            let wA := { (w2.skipPush x) with skip := true }
-            match x.kids with
-            | _ :: _ :: proto :: rest =>
-              let id := (match proto.kids.head? with | some name => identOf K inp name | none => none).getD []
-              let wB :=
-                if !isPredefined id then
-                  let formals : List Tree :=
-                    match proto.kids.find? (fun k => k.baseKind == K.listOfFormalArguments) with
-                    | some lf => lf.kids.filter (fun k => k.baseKind == K.formalArgument)
-                    | none => []
-                  let args := formals.map (fun fa =>
-                    let name := match fa.kids.head? with
-                      | some si => (match si.kids.head? with | some (.leaf o l _) => bytesOf inp o l | _ => [])
-                      | none => []
-                    let dflt := match fa.kids.find? (fun k => k.baseKind == K.defaultText) with
-                      | some d => some (strOf inp d)
-                      | none => none
-                    (name, dflt))
-                  let dtext : Option DefineText :=
-                    match rest.find? (fun k => k.baseKind == K.macroText) with
-                    | some mt =>
-                      match locOf mt with
-                      | some (o, l, _) => some { text := bytesOf inp o l, origin := some (path, ⟨o, o + l⟩) }
-                      | none => none
-                    | none => none
-                  { wA with defines := wA.defines.insert id (some { ident := id, args := args, text := dtext }) }
-                else wA
-              cont (pushLoc wB x)
-            | _ => cont (pushLoc wA x)
-          else if bk == K.includeDirective && !ignoreInclude then
-            let wA := { (w2.skipPush x) with skip := true }
-            match locOf x with
-            | none => cont wA
-            | some (_, _, line) =>
-              let wB := { wA with lastIncludeLine := some line }
-              if wB.lastItemLine == some line then .error .includeLine
-              else
-                match x.kids.head? with
-                | none => cont wB
-                | some inner =>
-                  let kw := (inner.kids.drop 1).head?
-                  let wC := match kw with | some k => wB.skipPush k | none => wB
-                  let lit := (inner.kids.drop 2).head?
-                  let pathR : Except PpError (Bytes × WState) :=
-                    if x.kind == K.incDoubleQuote then
-                      match lit with
-                      | some l => (match firstLeaf l with
-                          | some (o, n, _) => .ok (trimMatches 34 (bytesOf inp o n), wC)
-                          | none => .ok ([], wC))
-                      | none => .ok ([], wC)
-                    else if x.kind == K.incAngleBracket then
-                      match lit with
-                      | some l => (match firstLeaf l with
-                          | some (o, n, _) => .ok (trimEndMatches 62 (trimStartMatches 60 (bytesOf inp o n)), wC)
-                          | none => .ok ([], wC))
-                      | none => .ok ([], wC)
-                    else
-                      match lit with
-                      | some u =>
-                        let wD := wC.skipPush u
-                        (match resolveUsage C fuel inp s path u wD.defines stripComments (resolveDepth + 1) includeDepth with
-                         | .error e => .error e
-                         | .ok (some (p, _, _)) => .ok (trimMatches 34 (trim p), wD)
-                         | .ok none => .ok ([], wD))
-                      | none => .ok ([], wC)
-                  match pathR with
-                  | .error e => .error e
-                  | .ok (p0, wE) =>
-                    let p1 := resolveIncludePath C.fs C.includePaths p0
-                    match preprocessInner C fuel p1 wE.defines stripComments false resolveDepth (includeDepth + 1) with
-                    | .error e => .error (.include e)
-                    | .ok (inc, nd) => cont { wE with defines := nd, out := wE.out.merge inc }
-          else if bk == K.textMacroUsage then
-            let wA := { (w2.skipPush x) with skip := true }
-            match resolveUsage C fuel inp s path x wA.defines stripComments (resolveDepth + 1) includeDepth with
-            | .error e => .error e
-            | .ok r =>
-              let wB := match r with
-                | some (text, origin, nd) => { wA with out := wA.out.push text origin, defines := nd }
-                | none => wA
-              -- trailing whitespace attached to the closing paren (or to the identifier)
-              let hasArgs := x.kids.any (fun k => k.baseKind == K.listOfActualArguments)
-              let src : Option Tree := if hasArgs then x.kids.getLast? else (x.kids.drop 1).head?
-              let wss : List Tree := match src with
-                | some t => (pre t).filter (fun k => k.baseKind == K.whiteSpace)
-                | none => []
-              cont (wss.foldl pushLoc wB)
-          else if bk == K.position then
-            let wA := { (w2.skipPush x) with skip := true }
-            match (x.kids.drop 1).head? with
-            | some kw =>
-              match locOf kw with
-              | some (o, l, line) =>
-                let t := bytesOf inp o l
-                if startsWith t bFILE then
-                  cont { wA with out := wA.out.push (replaceAll (t.length + 1) t bFILE ([34] ++ path ++ [34])) none }
-                else if startsWith t bLINE then
-                  cont { wA with out := wA.out.push (replaceAll (t.length + 1) t bLINE (natToDec line)) none }
-                else cont wA
-              | none => cont wA
-            | none => cont wA
-          else cont w2
+          match enterStep C (preprocessInner C fuel) (resolveUsage C fuel) inp s path ignoreInclude stripComments resolveDepth includeDepth w2 x with
+          | .error e => .error e
+          | .ok w3 => walk C fuel inp s path ignoreInclude stripComments resolveDepth includeDepth evs w3
 
 /-- `preprocess_inner`: read the file, then `preprocess_str` with both depth counters passed through -/
 def preprocessInner (C : Cfg) : Nat → Bytes → Defines → Bool → Bool → Nat → Nat → Except PpError (POut × Defines)
